@@ -96,6 +96,12 @@ def zooSpec : List (String × String × String) :=
    ("dash_field_write", "4|go:0,0,ia", "struct_dash_tag_read_only"),
    ("keys_after_dropped_writes", "!throw:TypeError", "struct_write_dropped_expando"),
    ("slice_unshift", "5:8,9,1,2,3|go:[8 9 1]", "slice_write_beyond_length_rejected"),
-   ("slice_splice_insert", ":1,7,7,2,3|go:[1 7 7]", "slice_write_beyond_length_rejected")]
+   ("slice_splice_insert", ":1,7,7,2,3|go:[1 7 7]", "slice_write_beyond_length_rejected"),
+   ("map_forin_delete_during", "1|go:0", "map_forin_visits_deleted_keys"),
+   ("map_enumeration_order", "stable|go:6", "map_enumeration_order_random"),
+   ("slice_forin_shrink_during", "0|go:[1 2 3]", "slice_forin_visits_removed_indices"),
+   ("struct_promoted_enumeration", "true,x,true|A,B,Y,ZIn|A,B,Y,ZIn", "struct_promoted_fields_not_enumerated"),
+   ("nested_container_identity", "true,true,true", "bridged_value_identity_not_preserved"),
+   ("setlength_thrown_value", "number:42|go:[1 2 3]", "slice_setlength_flattens_thrown_value")]
 
 end OttoVerif.C16.Spec
